@@ -322,6 +322,85 @@ Section Proofs.
   Proof.
     intros V. unfold PipelineModel.reachable_for, PipelineModel.min_indent. now rewrite V.
   Qed.
+
+  (* ------------------------------------------------------------------ the wrapper main.format_code *)
+  Variable needs_nl : src -> bool.
+  Variables add_nl strip_nl : src -> src.
+  Notation inner_input := (inner_input src needs_nl add_nl).
+  Notation outer_traced := (format_code_outer_traced src P src_eqb stage is_skip is_blank valid indent_level safe_preserve n_multi max_passes needs_nl add_nl strip_nl).
+  Notation outer := (format_code_outer src P src_eqb stage is_skip is_blank valid indent_level safe_preserve n_multi max_passes needs_nl add_nl strip_nl).
+  Notation outer_trace := (format_code_outer_trace src P src_eqb stage is_skip is_blank valid indent_level safe_preserve n_multi max_passes needs_nl add_nl strip_nl).
+
+  (* the wrapper runs exactly the stages _format_code runs on the (possibly terminated) text *)
+  Lemma outer_trace_eq o s : outer_trace o s = trace o (inner_input s).
+  Proof.
+    unfold format_code_outer_trace, format_code_outer_traced, format_code_trace.
+    destruct (needs_nl s); reflexivity.
+  Qed.
+
+  Lemma outer_result_eq o s :
+    outer o s = if needs_nl s then strip_nl (model o (add_nl s)) else model o s.
+  Proof.
+    unfold format_code_outer, format_code_outer_traced, format_code_model, PipelineModel.inner_input.
+    destruct (needs_nl s); reflexivity.
+  Qed.
+
+  Theorem outer_trace_sound o s : incl (outer_trace o s) (reachable_for o (inner_input s)).
+  Proof. rewrite outer_trace_eq. apply trace_sound. Qed.
+
+  Theorem outer_trace_complete o s :
+    1 <= max_passes -> exit_of (inner_input s) = NoExit ->
+    incl (reachable_for o (inner_input s)) (outer_trace o s).
+  Proof. intros M E. rewrite outer_trace_eq. now apply trace_complete. Qed.
+
+  (* skip_file through the wrapper: the input comes back as it was, provided stripping undoes the termination *)
+  Lemma outer_exit_skip o s :
+    is_skip (inner_input s) = true -> (needs_nl s = true -> strip_nl (add_nl s) = s) ->
+    outer_traced o s = (s, []).
+  Proof.
+    intros K U. unfold format_code_outer_traced. rewrite (exit_skip o _ K).
+    unfold PipelineModel.inner_input in *. destruct (needs_nl s); cbn [fst snd]; [now rewrite U | reflexivity].
+  Qed.
+
+  Section PreservationOuter.
+    Variable R : src -> src -> Prop.
+    Hypothesis R_refl : forall a, R a a.
+    Hypothesis R_trans : forall a b c, R a b -> R b c -> R a c.
+
+    (* T01.1 through the wrapper: besides the stage premises (now about the terminated text), appending the final
+       line terminator and removing one trailing LF must themselves preserve R *)
+    Theorem outer_preserves o s :
+      (needs_nl s = true -> R s (add_nl s)) ->
+      (needs_nl s = true -> forall t, R t (strip_nl t)) ->
+      (forall k, In k (reachable_for o (inner_input s)) ->
+         okk R (ctxs o (inner_input s)) k) ->
+      R s (outer o s).
+    Proof.
+      intros HA HS H. rewrite outer_result_eq.
+      pose proof (orchestration_preserves R R_refl R_trans o (inner_input s) H) as I.
+      unfold PipelineModel.inner_input in *.
+      destruct (needs_nl s).
+      - apply R_trans with (add_nl s); [now apply HA|].
+        apply R_trans with (model o (add_nl s)); [exact I | now apply HS].
+      - exact I.
+    Qed.
+  End PreservationOuter.
+
+  Corollary outer_behaviour_preserved (B : Type) (beh : src -> B) o s :
+    (needs_nl s = true -> beh (add_nl s) = beh s) ->
+    (needs_nl s = true -> forall t, beh (strip_nl t) = beh t) ->
+    (forall k, In k (reachable_for o (inner_input s)) ->
+       forall c, ctxs o (inner_input s) c -> forall t, beh (stage k c t) = beh t) ->
+    beh (outer o s) = beh s.
+  Proof.
+    intros HA HS H.
+    apply (outer_preserves (fun a b => beh b = beh a)).
+    - congruence.
+    - congruence.
+    - exact HA.
+    - intros N t. now apply HS.
+    - intros k Hk c Hc t. now apply H.
+  Qed.
 End Proofs.
 
 (* ------------------------------------------------------------------ not vacuous *)
@@ -348,6 +427,20 @@ Proof. vm_compute. reflexivity. Qed.
 Require Import PyrefactGen.Tables.
 Lemma max_file_passes_pos : 1 <= MAX_FILE_PASSES.
 Proof. unfold MAX_FILE_PASSES. lia. Qed.
+
+Theorem outer_trace_exact_tables :
+  forall (src P : Type) (src_eqb : src -> src -> bool) (stage : kind -> option (ctx src P) -> src -> src)
+         (is_skip is_blank valid : src -> bool) (indent_level : src -> nat) (safe_preserve : P -> src -> P)
+         (n_multi : nat) (needs_nl : src -> bool) (add_nl strip_nl : src -> src) (o : opts P) (s : src),
+    exit_of src P stage is_skip is_blank valid (inner_input src needs_nl add_nl s) = NoExit ->
+    forall k, In k (format_code_outer_trace src P src_eqb stage is_skip is_blank valid indent_level safe_preserve
+                      n_multi MAX_FILE_PASSES needs_nl add_nl strip_nl o s)
+              <-> In k (reachable_for src P stage valid indent_level n_multi o (inner_input src needs_nl add_nl s)).
+Proof.
+  intros. split.
+  - apply outer_trace_sound.
+  - apply outer_trace_complete; [apply max_file_passes_pos | assumption].
+Qed.
 
 Theorem trace_exact_tables :
   forall (src P : Type) (src_eqb : src -> src -> bool) (stage : kind -> option (ctx src P) -> src -> src)
